@@ -110,9 +110,9 @@ prop(
 
 prop(
     "C04",
-    rules=["C04-R2", "C04-R3", "C04-R4", "C04-R5", "X-WMC", "X-EXT@dropper", "C04-R1", "C04-R7", "C04-R8", "C10-R1"],
-    mir_rules=[S.rule_remover, S2.rule_dropper, S2.rule_push_guards, S2.rule_cloner, S2.rule_who_may, S.rule_extent, S2.rule_dataptr_primitives, S2.rule_forbidden_calls, S2.rule_alloc_discipline, U.rule_commit_sections],
-    floors={"C04-R1": 15, "C04-R2": lambda c: n_storages(c), "C04-R3": lambda c: 5 * n_storages(c), "C04-R4": lambda c: 5 * n_storages(c), "C04-R5": lambda c: n_storages(c), "X-WMC": lambda c: 6 * n_storages(c)},
+    rules=["C04-R2", "C04-R3", "C04-R4", "C04-R5", "X-WMC", "X-EXT@dropper", "C04-R1", "C04-R7", "C04-R8", "C10-R1", "C04-R6"],
+    mir_rules=[S.rule_remover, S2.rule_dropper, S2.rule_push_guards, S2.rule_cloner, S2.rule_who_may, S.rule_extent, S2.rule_dataptr_primitives, S2.rule_forbidden_calls, S2.rule_alloc_discipline, U.rule_commit_sections, S2.rule_implicit_drops],
+    floors={"C04-R6": lambda c: 10 * n_storages(c), "C04-R1": 15, "C04-R2": lambda c: n_storages(c), "C04-R3": lambda c: 5 * n_storages(c), "C04-R4": lambda c: 5 * n_storages(c), "C04-R5": lambda c: n_storages(c), "X-WMC": lambda c: 6 * n_storages(c)},
     explanation="Static analysis. Decides: X-WMC the ownership primitives (write, swap_remove, drop_to, dealloc, grow) are called only by the functions whose role owns them; "
     "C04-R2 the remover moves exactly one value out of each of the N+1 arrays and pairs it with one len decrement; C04-R3 Drop drops cells [0,len) of each column exactly once before freeing each array once with the tracked capacity, "
     "DataPtr has no Drop impl, and no second drop is reachable from the unwind edge of a panicking cell drop; C04-R4 a refused create_within_capacity returns its argument untouched on an effect-free path; "
@@ -120,6 +120,7 @@ prop(
     "C04-R1 allocator discipline of DataPtr (GlobalAlloc contract): alloc only with the array layout of the capacity argument on a path with sized T and capacity != 0, realloc/dealloc only of self.0 with the array layout of the capacity it was allocated with on a path where that capacity != 0, "
     "the no-op paths only for zero-sized T or capacity 0, the allocator's (null-checked) result is what gets installed, nobody but DataPtr calls the allocator, swap_remove never drops; "
     "C10-R1 (shared with C10) no creator, remover or grower can be interrupted by a panic between its first and last state write: an interrupted removal leaves a duplicated row (dropped twice later), an interrupted creation a counted row that was never written; "
+    "C04-R6 every compiler-inserted drop of a component-bearing place inside gecs is an unwind-path drop of a by-value local: none is reached through a pointer (which is how an assignment over a live cell shows in MIR) and none lies on a normal path (values are stored or handed back, never dropped by the library); "
     "C04-R7 no call to mem::forget, ManuallyDrop::new, *::leak, RefCell::as_ptr, UnsafeCell::get, *::into_raw or zeroed anywhere in gecs or in the specimen expansions.",
     not_decided="exactly-once over all histories additionally needs I2; leak-freedom of user Drop impls; allocator behaviour",
 )
